@@ -327,6 +327,45 @@ def rule_u9(repo):
     from ..persist import scoped_state_rule
     return scoped_state_rule(repo, 'C08.U9')
 
+def rule_u10(repo):
+    """Joining a class of internal type variables with a type T2 adds, for every member k of the class, everything reachable
+    from T2 to what is reachable from k.  The occurs check is about exactly these additions: k must not be among what is
+    added to reach[k].  It therefore has to be made for *every member whose entry is extended* - a test of one
+    representative says nothing about the others (u = v merges u and v; P (u u) then closes a cycle through u, which is
+    not the representative), and the missed cycle ends in unbounded recursion when the types are expanded."""
+    from ..idioms import forall_not_edges
+    res = RuleResult('C08.U10', 'the occurs check is made for every member of the class whose reachability set is extended', floor=1)
+    f = repo.func(INFER, 'type_infer.<locals>.union')
+    cfg = cfg_of(f.node)
+    n_sites = 0
+    for n in cfg.nodes:
+        if n.kind != 'stmt' or not isinstance(n.ast, ast.Expr) or not isinstance(n.ast.value, ast.Call):
+            continue
+        c = n.ast.value
+        if not (call_attr(c) == 'update' and isinstance(c.func.value, ast.Subscript) and is_name(c.func.value.value, 'reach') and c.args):
+            continue
+        n_sites += 1
+        key, added = src(c.func.value.slice), src(c.args[0])
+
+        def own(e, pol, key=key, added=added):
+            cp = compare_parts(e)
+            if not cp or src(cp[1]) != key or src(cp[2]) != added:
+                return False
+            return (cp[0] is ast.In and not pol) or (cp[0] is ast.NotIn and pol)
+        edges = set(cfg.establishing_edges(own))
+        # an earlier loop (or any(..)) that raises as soon as one element is among what will be added
+        e2, _infos = forall_not_edges(cfg, lambda it: True, lambda e, v, added=added: (
+            True if (lambda cp: cp and cp[0] is ast.In and is_name(cp[1], v) and src(cp[2]) == added)(compare_parts(e)) else None))
+        edges |= set(e2)
+        ok = bool(edges) and cfg.path_avoiding(n, skip_edges=edges) is None
+        res.add('%s :: type_infer.union :: occurs-check-per-member(reach[%s])' % (INFER, key), ok,
+                '`%s in %s` raises before reach[%s] is extended' % (key, added, key) if ok else
+                'line %d extends reach[%s] by `%s` without having tested `%s in %s` for that %s: a cycle closed through a member of the class that is not its '
+                'representative (u = v & P (u u)) is not reported, and expanding the types recurses without end' % (n.lineno, key, added, key, added, key),
+                '%s:%d' % (INFER, n.lineno))
+    need(n_sites, 'type_infer.union: no `reach[..].update(..)` found')
+    return res
+
 
 def rules(repo):
-    return [rule_u1(repo), rule_u2(repo), rule_u3(repo), rule_u4(repo), rule_u5(repo), rule_u6(repo), rule_u7(repo), rule_u8(repo), rule_u9(repo)]
+    return [rule_u1(repo), rule_u2(repo), rule_u3(repo), rule_u4(repo), rule_u5(repo), rule_u6(repo), rule_u7(repo), rule_u8(repo), rule_u9(repo), rule_u10(repo)]
